@@ -4,7 +4,9 @@
 package ice
 
 import (
+	"fmt"
 	"io"
+	"reflect"
 
 	"github.com/RoaringBitmap/roaring"
 	segment "github.com/blugelabs/bluge_segment_api"
@@ -28,4 +30,82 @@ func VerifMerge(segments []segment.Segment, drops []*roaring.Bitmap, w io.Writer
 		segmentBases[i] = seg.(*Segment)
 	}
 	return mergeSegmentBasesWriter(segmentBases, drops, w, chunkMode, closeCh)
+}
+
+// ---- canonical dumps of private cursor state (keys of the explicit-state search) ----
+
+func verifFNV(b []byte) uint32 {
+	h := uint32(2166136261)
+	for _, c := range b {
+		h ^= uint32(c)
+		h *= 16777619
+	}
+	return h
+}
+
+func verifPeek(p roaring.IntPeekable) string {
+	if p == nil {
+		return "nil"
+	}
+	if !p.HasNext() {
+		return "end"
+	}
+	return fmt.Sprint(p.PeekNext())
+}
+
+func verifDecoder(d *chunkedIntDecoder) string {
+	if d == nil {
+		return "nil"
+	}
+	r := "nil"
+	if d.r != nil {
+		r = fmt.Sprintf("C%d/S%d:%08x", d.r.C, len(d.r.S), verifFNV(d.r.S))
+	}
+	return fmt.Sprintf("{so=%d dso=%d co=%v ccb=%d r=%s}", d.startOffset, d.dataStartOffset, d.chunkOffsets, len(d.curChunkBytes), r)
+}
+
+func verifBitmap(b *roaring.Bitmap) string {
+	if b == nil {
+		return "nil"
+	}
+	return b.String()
+}
+
+// VerifStateIter dumps every field of a PostingsIterator that any of its methods reads.
+func VerifStateIter(it segment.PostingsIterator) string {
+	i, ok := it.(*PostingsIterator)
+	if !ok || i == nil {
+		return fmt.Sprintf("foreign:%T", it)
+	}
+	if n := reflect.TypeOf(*i).NumField(); n != 15 {
+		panic(fmt.Sprintf("verif hook out of date: PostingsIterator has %d fields", n))
+	}
+	if i == emptyPostingsIterator {
+		return "emptyPostingsIterator"
+	}
+	own := "none"
+	if i.postings != nil {
+		own = fmt.Sprintf("po=%d own=%v cs=%d", i.postings.postingsOffset, i.postings.postings == i.ActualBM, i.postings.chunkSize)
+	}
+	return fmt.Sprintf("pl{%s} 1h=%d/%d chunk=%d ifn=%v il=%v all=%s act=%s same=%v fn=%s loc=%s capNL=%d capNSL=%d",
+		own, i.docNum1Hit, i.normBits1Hit, i.currChunk, i.includeFreqNorm, i.includeLocs,
+		verifPeek(i.all), verifPeek(i.Actual), i.all == i.Actual,
+		verifDecoder(i.freqNormReader), verifDecoder(i.locReader), cap(i.nextLocs), cap(i.nextSegmentLocs))
+}
+
+// VerifStatePL dumps a PostingsList.
+func VerifStatePL(l segment.PostingsList) string {
+	p, ok := l.(*PostingsList)
+	if !ok || p == nil {
+		return fmt.Sprintf("foreign:%T", l)
+	}
+	if n := reflect.TypeOf(*p).NumField(); n != 9 {
+		panic(fmt.Sprintf("verif hook out of date: PostingsList has %d fields", n))
+	}
+	if p == emptyPostingsList {
+		return "emptyPostingsList"
+	}
+	return fmt.Sprintf("sb=%v po=%d fo=%d lo=%d cs=%d 1h=%d/%d postings=%s except=%s",
+		p.sb != nil, p.postingsOffset, p.freqOffset, p.locOffset, p.chunkSize, p.docNum1Hit, p.normBits1Hit,
+		verifBitmap(p.postings), verifBitmap(p.except))
 }
